@@ -35,4 +35,7 @@ func init() {
 	reg("C18", propMeta{Level: "exploration", QuickRuns: 6000, ThoroughRuns: 250000,
 		Rule: "part A (3/4 of runs): 2-4 simulated client tasks x 2-6 operations each from {Add, Remove, Contains, GetFacts(pattern), Merge(fixed store), EstimateFactCount, ListPredicates} on NewConcurrentFactStore(base) over <= 8 atoms; base is a real store (simple/indexed/multi-indexed/multi-indexed-array, statement-level yields) behind a wrapper that checks the held lock mode and yields at entry and in scan callbacks; the baton scheduler draws every switch at lock/unlock/base/scan points plus 0-3 preemptions at instrumented yields; oracle: porcupine linearizability of the invoke/return history (global event numbers) against a bitmask set model, lock discipline, deadlock, panic. Part B (1/4): 2-4 tasks each parse->analyse->evaluate their own generated program (some with failing parses, pooled lexer/parser objects changing hands, optionally one task calling ast.SetTimezone) under 1-3 (thorough 1-6) function-entry preemptions; oracle: each task's result equals its solo run, lockset on written package-level variables, no deadlock/panic. Non-trivial: >= 1 pair of overlapping operations (A) / >= one switch per task (B). Distinct = distinct interleavings (hash of task,site at every switch point).",
 		Assumptions: []string{"cooperative scheduling cannot exhibit hardware-level data races; the lockset discipline stands in for 'no data races'", "ANTLR runtime and Go runtime are not instrumented: preemption happens only at mangle function entries, store statements and sync points"}})
+	reg("C19", propMeta{Level: "fault_enumeration", QuickRuns: 6000, ThoroughRuns: 250000,
+		Rule: "one run = a generated fact set (1-5 predicates incl. zero-arity, p/1 and p/2, dotted names; constants of every kind: multi-part names, strings with quotes/backslashes/control characters/non-ASCII, bytes, boundary integers, floats, times, durations, nested pairs/lists/maps/structs; optionally an empty predicate listed by a read-only wrapper) written with WriteTo through {plain, gzip, zstd} x {Deterministic on/off} onto a stub writer, read back (a) by ReadInto into a drawn store kind through a stub reader with a drawn delivery schedule (full, random chunks, 1 byte, stutter + data-with-EOF) and (b) through NewSimpleColumnStore(opener)+GetFacts for drawn pattern shapes (all variables / one constant / ground / absent predicate), each GetFacts re-opening the medium; one fault kind per run in half of the runs: write error at a drawn offset (sticky or transient), non-EOF read error at a drawn offset, opener failing on the j-th open. Oracle: err == nil => reloaded set == original set (a reported error is never a violation); Deterministic => bytes equal across store kind, insertion order and map order. Thorough additionally enumerates every fault offset for small media. Non-trivial: >= 2 facts. Distinct = distinct trace hashes.",
+		Assumptions: []string{"strings are valid UTF-8 (byte strings are arbitrary)", "fact sets are free of Atom.Hash collisions (known finding under C06)", "torn or corrupted media are judged under C10, not here"}})
 }
